@@ -1,4 +1,4 @@
-import DoitModel.Proofs.C09Pinned
+import DoitModel.Proofs.C09Disp
 /-! # C09 — every run terminates; dependency cycles are diagnosed, never hung on
 
 Property theorems only (model: `Model/Run.lean`, `Model/RunC09.lean`; invariants: `Proofs/Run*.lean`, `Proofs/C09*.lean`).
@@ -77,83 +77,37 @@ def C09_no_false_cycle_full : Prop :=
     handed to the runner has not been given back (`dispatched ≠ []`); when every remaining node waits and nothing is
     out, it raises the cyclic error instead.  Holds in every state (no hypothesis). -/
 theorem C09_holdOn_needs_dispatched (inp : RunInput) (s s' : Sys) (perm : List Name) (hsu : s.susp = none)
-    (hs : dtick inp s perm = some s') (hh : s'.susp = some .holdOn) : s.dispatched ≠ [] ∧ s'.dispatched = s.dispatched := by
-  have aw : ∀ (n : Name) (nd : Node) (ds : List Name) (c : Bool) (pc' : PC),
-      (addWaitRun inp s n nd ds c pc').susp ≠ some .holdOn := by
-    intro n nd ds c pc'; rw [addWaitRun_susp]; simp [hsu]
-  have gs : ∀ (n : Name) (nd : Node) (x : Name) (pc' : PC), (genStep inp s n nd x pc').susp ≠ some .holdOn := by
-    intro n nd x pc'; unfold genStep
-    cases s.nodes x with
-    | none => simp [setNode, hsu]
-    | some y => simp only []; split <;> simp [setNode, hsu]
-  unfold dtick at hs
-  cases hcur : s.cur with
-  | some n =>
-    simp only [hcur] at hs
-    cases hn : s.nodes n with
-    | none => simp only [hn] at hs; cases hs; simp at hh
-    | some nd =>
-      simp only [hn] at hs
-      exfalso
-      unfold nodeStep at hs
-      cases hpc : nd.pc with
-      | loopTop => simp only [hpc] at hs; split at hs <;> cases hs; simp [setNode, hsu] at hh
-      | calcIter todo =>
-        simp only [hpc] at hs
-        cases todo with
-        | cons x xs => cases hs; exact gs _ _ _ _ hh
-        | nil => cases hs; exact aw _ _ _ _ _ hh
-      | taskIter todo =>
-        simp only [hpc] at hs
-        cases todo with
-        | cons x xs => cases hs; exact gs _ _ _ _ hh
-        | nil => cases hs; exact aw _ _ _ _ _ hh
-      | afterDeps =>
-        simp only [hpc] at hs
-        split at hs
-        · cases hs; simp [setNode, hsu] at hh
-        · split at hs <;> (cases hs; simp [setNode, hsu] at hh)
-      | self1 => simp only [hpc] at hs; cases hs; simp at hh
-      | afterSelf1 =>
-        simp only [hpc] at hs
-        split at hs
-        · cases hs; simp [setNode, hsu] at hh
-        · split at hs <;> (cases hs; simp [setNode, hsu] at hh)
-      | setupDecide => simp only [hpc] at hs; split at hs <;> (cases hs; simp [setNode, hsu] at hh)
-      | setupIter todo =>
-        simp only [hpc] at hs
-        cases todo with
-        | cons x xs => cases hs; exact gs _ _ _ _ hh
-        | nil => cases hs; exact aw _ _ _ _ _ hh
-      | afterSetup => simp only [hpc] at hs; split at hs <;> (cases hs; simp [setNode, hsu] at hh)
-      | self2 => simp only [hpc] at hs; cases hs; simp at hh
-      | afterSelf2 => simp only [hpc] at hs; cases hs; simp [setNode, hsu] at hh
-      | done => simp only [hpc] at hs; cases hs; simp [hsu] at hh
-  | none =>
-    simp only [hcur] at hs
-    cases hrd : s.ready with
-    | cons r rs => simp only [hrd] at hs; cases hs; simp [hsu] at hh
-    | nil =>
-      simp only [hrd] at hs
-      cases htr : s.toRun with
-      | cons t ts =>
-        simp only [htr] at hs
-        split at hs <;> (cases hs; simp [setNode, hsu] at hh)
-      | nil =>
-        simp only [htr] at hs
-        split at hs
-        · split at hs
-          · cases hs; simp at hh
-          · rename_i hdp; cases hs; exact ⟨hdp, rfl⟩
-        · cases hs; simp at hh
+    (hs : dtick inp s perm = some s') (hh : s'.susp = some .holdOn) : s.dispatched ≠ [] ∧ s'.dispatched = s.dispatched :=
+  dtick_holdOn hsu hs hh
 
-/-- the full no-deadlock statement: on an acyclic graph (in fact on any graph, after the repair) the dispatcher never
-    answers `"hold on"` while nothing is in flight.  NOT proved: `C09_holdOn_needs_dispatched` gives `dispatched ≠ []`;
-    that every dispatched node is at the runner (being selected, in the job queue, executing, in the result queue, or
-    about to be fed back) is the accounting invariant still missing. -/
-def C09_no_deadlock_full : Prop :=
-  ∀ inp : RunInput, ∀ s, PReach inp s → s.susp = some .holdOn →
-    ∃ n, n ∈ s.dispatched ∧ (InFlight s n ∨ sentBack s = some n)
+/-- C09 (no deadlock), parallel runners, every graph (no acyclicity hypothesis is needed after the repair), every worker
+    interleaving and `numProcess`: in every reachable state in which the run goes on (no failure stopped it, no
+    exception ended it) and the dispatcher's last answer was `"hold on"`, some node handed to the runner is still out —
+    its job is queued or held by `get_next_job`, a worker executes it, its result waits in the result queue
+    (`InFlight`), or it is just being fed back to the dispatcher.  So the run never waits with nothing executing.
+    Proof: `InvC` — `dispatched` holds exactly the nodes that are at the runner (`Proofs/C09Disp.lean`). -/
+theorem C09_no_deadlock_parallel (inp : RunInput) (s : Sys) (hr : PReach inp s) (hst : s.stop = false)
+    (hh : s.halt = .none) (hho : s.susp = some .holdOn) :
+    ∃ n, n ∈ s.dispatched ∧ (InFlight s n ∨ sentBack s = some n) :=
+  parallel_holdOn_in_flight hr hst hh hho
+
+/-- C09 (no deadlock), serial runner, every graph: the dispatcher never answers `"hold on"` at all (the runner gives
+    every node back before it resumes the generator, so `dispatched` is empty whenever everything waits and
+    `_check_deadlock` raises instead) — the internal `AttributeError` of `select_task("hold on")` is unreachable -/
+theorem C09_no_deadlock_serial (inp : RunInput) (hser : inp.runner = .serial) (s : Sys) (hr : Reach inp s) :
+    s.susp ≠ some .holdOn :=
+  serial_no_holdOn hser hr
+
+/-- accounting of `TaskDispatcher.dispatched` (both systems): a node yielded to the runner is in `dispatched`, and
+    while the run goes on every member of `dispatched` is at the runner -/
+theorem C09_dispatched_accounting (inp : RunInput) (s : Sys) (hr : Reach inp s ∨ PReach inp s) :
+    (∀ n, s.susp = some (.node n) → n ∈ s.dispatched) ∧
+    (s.stop = false → s.halt = .none → s.susp ≠ some .crash → ∀ n ∈ s.dispatched, AtRunner s n) := by
+  have h : InvC s := by
+    rcases hr with a | a
+    · exact reach_invC a
+    · exact preach_invC a
+  exact ⟨h.ds, h.dc⟩
 
 /-! ### a raised cyclic error ends the run with exit code 3 -/
 
